@@ -580,7 +580,11 @@ def _message(run):
     header_patterns(run, "R2")
     ih = P.method(M, "is_header")
     rr = [n for n in A.own_nodes(ih) if isinstance(n, ast.Return)]
-    run.check("R2", len(rr) == 1 and norm(rr[0].value) == "cls.HEADER_REGEX.match(value) is not None", "is_header uses the header regex",
+    ihv = set()
+    if len(rr) == 1 and rr[0].value is not None:
+        gi = A.cfg(ih, M)
+        ihv = {_strip(x) for rn in gi.nodes_of(rr[0]) for x in PVm.expand_consistent(ih, M, rr[0].value, rn)}
+    run.check("R2", ihv == {_strip(f"cls.HEADER_REGEX.match({ih.params[1]}) is not None")}, "is_header uses the header regex",
               key="PowHsmAttestationMessage.is_header|expr", where=ih.loc(), message="is_header changed")
 
 
